@@ -79,11 +79,30 @@ def networks(prog: Program, impl: str):
     yield "self-loop(ramp)", gw
 
 
-def step(prog: Program, gw: GWorld, delta=True, phi=True, engine_explicit=True, flags=()):
+def caller_variables(gw: GWorld) -> dict:
+    """initial conditions for every element, given by the caller: the same symbols the engine
+    would create (so that results are comparable with an engine-initialised run)"""
+    ic = {}
+    links, origins, dests = elements(gw)
+    for _, _, l in links:
+        d = {"v": TV(E.V("v", l.ident), 1, False, "caller array"), "rho": TV(E.V("rho", l.ident), 1, False, "caller array")}
+        if l.cls.endswith(":LinkWithVsl"):
+            d["v_ctrl"] = TV(E.V("v_ctrl", l.ident + ".vsl") if l.attrs["vsl"] else E.vcat(), 1, False, "caller array")
+        ic[l] = d
+    for _, o in origins:
+        ic[o] = {k: TV(E.S(f"{o.ident}.{k}"), 1, False, "caller array") for k in ("q", "v_ctrl", "r", "d", "w")}
+    for _, dd in dests:
+        ic[dd] = {"d": TV(E.S(f"{dd.ident}.d"), 1, False, "caller array")}
+    return ic
+
+
+def step(prog: Program, gw: GWorld, delta=True, phi=True, engine_explicit=True, flags=(), init_conditions=None):
     it = gw.interp()
     fi = prog.function("sym_metanet.network", "Network.step")
     kw = dict(gw.other_params(delta, phi))
     kw["engine"] = gw.EXPL if engine_explicit else None
+    if init_conditions is not None:
+        kw["init_conditions"] = init_conditions
     for f in flags:
         kw[f] = True
     it.call_function(FuncV(fi, gw.net, defcls=NET), [], kw)
